@@ -687,7 +687,7 @@ def _p_is_unextendible_product_basis(ctx, r, rng):
     kind = r % 3
     if r % 4 == 3:
         # far too few vectors: one or two random product vectors among three to five parties can always be extended
-        dims = [[2, 2, 2], [3, 3, 3], [2, 2, 2, 2], [2, 3, 2], [2, 2, 2, 2, 2]][(r // 4) % 5]
+        dims = [[2, 2, 2], [3, 3, 3], [2, 2, 2, 2], [2, 3, 2], [2, 2, 2, 2, 2]][(r // 4 + 3) % 5]  # the quick tier starts with unequal local dimensions
         count = 1 if len(dims) < 5 or r % 8 == 3 else 2
         vecs = [ref.kron_all([gen.unit(rng, d_, bool(r % 2)).reshape(-1, 1) for d_ in dims]).reshape(-1) for _ in range(count)]
         want, name = False, f"few-random-product-vectors[{count}-of-{len(dims)}-parties]"
@@ -706,8 +706,16 @@ def _p_is_unextendible_product_basis(ctx, r, rng):
         dims, want, name = [2, 2, 2], True, "shifts"
         if r % 2:
             vecs, want, name = vecs[:3], False, "shifts-minus-one"
-    res = ctx.call(fn, [np.asarray(v, dtype=complex) for v in vecs], dims)
+    res = ctx.call(fn, [np.asarray(v, dtype=complex) for v in vecs], dims, expect=(ValueError,))
     if res is FAILED:
+        return
+    if isinstance(res, ValueError):
+        # every input here is a set of product vectors by construction: a rejection is a failure.  "not a product state" on three or more
+        # parties is the rounding-level threshold of is_product (known finding of C14) surfacing through this predicate
+        mech = f"raise:is_unextendible_product_basis:ValueError[{str(res)[:60]}]"
+        if "not a product state" in str(res) and len(dims) >= 3:
+            mech = "is_unextendible_product_basis:rejects-product-vectors[is_product-rounding-threshold]"
+        ctx.fail("pred:is_unextendible_product_basis", mech, {"set": name, "dims": dims, "exception": repr(res)})
         return
     ctx.check("pred:is_unextendible_product_basis", bool(res[0]) == want, sig=(name,), nt=True, mech=f"is_unextendible_product_basis:wrong-verdict[{name}]",
               detail={"set": name, "want": want, "got": bool(res[0])})
